@@ -1129,6 +1129,9 @@ def limit_cases(tier: str) -> list[dict]:
                 if enc and api.startswith("post"):
                     continue
                 out.append({"limit": "size", "M": M, "api": api, "enc": enc, "seg": 1024})
+    for size in (1, 3000):
+        for api in ("multipart-read", "multipart-read_decode", "post-text", "post-file"):
+            out.append({"limit": "unlimited", "size": size, "api": api})
     for M in (100000, 1000000):
         for ce in ("gzip", "deflate"):
             out.append({"limit": "bomb", "M": M, "ce": ce, "factor": 40 if tier == "quick" else 200})
@@ -1190,6 +1193,33 @@ def check_limit(rec: Rec, case: dict) -> None:
             stats = {"parts": 0, "budget": 10 ** 9}
             coro = walk_any(reader, "read", [CHUNK], stats)
             want_exc = Exception
+        elif kind == "unlimited":
+            # client_max_size=0 switches the size limit off (as it does for request.read() and request.post()): every way of
+            # reading a part gives the whole content
+            content = (b"0123456789abcdef" * 400)[: case["size"]]
+            disp = b'Content-Disposition: form-data; name="f"' + (b'; filename="x.bin"' if case["api"] == "post-file" else b"") + b"\r\n"
+            data = b"--BOUND\r\n" + disp + b"\r\n" + content + b"\r\n--BOUND--\r\n"
+            stream, _ = make_stream(loop)
+            req = make_mocked_request("POST", "/", headers={hdrs.CONTENT_TYPE: "multipart/form-data; boundary=BOUND"}, payload=stream, loop=loop, client_max_size=0)
+
+            async def rd0():
+                if case["api"].startswith("post"):
+                    form = await req.post()
+                    v = form["f"]
+                    return v.encode() if isinstance(v, str) else v.file.read()
+                reader = await req.multipart()
+                part = await reader.next()
+                return await part.read(decode=case["api"] == "multipart-read_decode")
+
+            done, res, _ = drive_feed(loop, stream, segments(data, [1024]), rd0())
+            if not done:
+                raise Violation("reader-hangs", f"{case}: reading never finished")
+            if isinstance(res, BaseException):
+                raise Violation(hyp.exc_key(res, "unlimited-refused"), f"{case}: client_max_size=0 (no limit) but reading a {len(content)}-byte part raised {type(res).__name__}: {res}")
+            if bytes(res) != content:
+                raise Violation("content-mismatch/unlimited", f"{case}: got {len(res)} bytes, expected {len(content)}")
+            rec.case(case, True, ["limit:unlimited", "api:" + case["api"]])
+            return
         elif kind == "size":
             M = case["M"]
             total = M + 12 * CHUNK
